@@ -257,14 +257,15 @@ inductive NextRes
 
 /-- The first call handed `ts.take k` to the encoder and then failed (its reader failed, the
 encoder refused a token, or the connection failed).  `aborted` is what the session remembers
-about it: the encoder is inside an element.  With `guard = true` (the code after the repair)
+about it: the encoder is inside an element, or (`refusedTok`) the underlying writer refused
+the token after the prefix, after which the depth counter is not trusted.  With `guard = true` (the code after the repair)
 the next transmit call is refused when the previous one was aborted; with `guard = false`
 (before) it encodes its element at whatever depth the encoder was left.  Result: the tokens
 the first call left in the encoder, and what the second call does. -/
-def faultThenNext (guard : Bool) (cfg : Cfg) (fresh : String) (ts : List Tok) (k : Nat) (us : List Tok) :
-    List Tok × NextRes :=
+def faultThenNext (guard : Bool) (cfg : Cfg) (fresh : String) (ts : List Tok) (k : Nat) (us : List Tok)
+    (refusedTok : Bool := false) : List Tok × NextRes :=
   let first := encode cfg fresh 0 (ts.take k)
-  if guard && first.1 != 0 then (first.2, .refused)
+  if guard && (first.1 != 0 || refusedTok) then (first.2, .refused)
   else (first.2, .wrote (encode cfg fresh first.1 us).2)
 
 /-! ### what the peer parses (`encoding/xml` printer + parser, trusted) -/
